@@ -15,6 +15,7 @@ def gen_c10(rnd, sid):
     ncls = 3
     def act():
         r = rnd.random()
+        if r < 0.08: return ["raise_err"]           # a failing handler of the awaited class still counts as its dispatch
         if r < 0.45: return ["enq", "U%d" % rnd.randrange(ncls), rnd.choice([0, 0, 0, 1, -1]), None, sid.next()]
         if r < 0.75: return ["proc", "U%d" % rnd.randrange(ncls)]
         if r < 0.9: return ["proc", None]
